@@ -7,7 +7,7 @@ LIST="$1"
 export CARGO_NET_OFFLINE=true
 while read -r NAME IDS; do
   [ -z "$NAME" ] && continue
-  W=/tmp/mut-$NAME
+  W=/tmp/mut-work; git -C /repo worktree remove --force "$W" >/dev/null 2>&1; rm -rf "$W"
   git -C /repo worktree add --detach "$W" HEAD >/dev/null 2>&1 || { echo "$NAME: cannot create worktree"; continue; }
   if ! git -C "$W" apply "/verif/mutants/$NAME.diff" 2>/dev/null; then echo "$NAME: patch does not apply" | tee -a /verif/mutants/RESULTS.txt; git -C /repo worktree remove --force "$W"; continue; fi
   T=$(cd "$W" && CARGO_TARGET_DIR=/tmp/mut-test-target cargo test --offline 2>&1 | grep -E "^test result" | head -1)
